@@ -123,4 +123,14 @@ theorem widening_is_identity (inT outT : Conv.Ty) (hi : inT.isInt = true) (n : I
 /-- non-vacuity: a two-scale destination with a non-dividing chunk size; 2·2·1 + 1 = 5 chunks -/
 example : (plan [⟨"a", (5, 4, 3), [(4, 2, 4)]⟩, ⟨"b", (3, 2, 2), [(4, 4, 4)]⟩]).length = 5 := by decide
 
+/-- non-vacuity of the main theorem: a one-scale destination with two chunks, an identity codec and a
+    constant source satisfy all its hypotheses -/
+example : ∃ st, run (fun _ => .ok [7]) id (writeK (validFor [⟨"a", (2, 1, 1), [(1, 1, 1)]⟩]) (fun _ a => a))
+    Store.empty (plan [⟨"a", (2, 1, 1), [(1, 1, 1)]⟩]) = .ok st := by
+  obtain ⟨st, h, _⟩ := conversion_preserves_every_chunk [⟨"a", (2, 1, 1), [(1, 1, 1)]⟩]
+    (by simp) (by simp) (by intro s hs cs hcs; simp at hs; subst hs; simp at hcs; subst hcs; decide)
+    (fun _ => .ok [7]) (fun _ => [7]) (fun _ _ => rfl) id (fun _ a => a)
+    (fun _ b => some b) (fun _ _ => by simp) Store.empty
+  exact ⟨st, h⟩
+
 end NgVerif.Props.C13
